@@ -543,6 +543,7 @@ type AnimEncoder struct {
 	countSinceKeyframe int                // Frames since the last keyframe.
 	prevFrameRect      image.Rectangle    // Bounding rect of previous frame (for dispose-bg). Always valid after a frame is committed.
 	prevMuxIndex       int                // Index of previous frame in muxer (for retroactive dispose update).
+	hasMetadata        bool               // ICC/EXIF/XMP was supplied: the output must be the container that carries it.
 }
 
 // sanitizeKeyframeOptions adjusts kmin/kmax to valid ranges, matching the
@@ -1197,16 +1198,25 @@ func (e *AnimEncoder) AddRawFrame(bitstreamData []byte, duration time.Duration, 
 // SetICCProfile sets the ICC color profile for the output file.
 func (e *AnimEncoder) SetICCProfile(data []byte) {
 	e.muxer.SetICCProfile(data)
+	if data != nil {
+		e.hasMetadata = true
+	}
 }
 
 // SetEXIF sets EXIF metadata for the output file.
 func (e *AnimEncoder) SetEXIF(data []byte) {
 	e.muxer.SetEXIF(data)
+	if data != nil {
+		e.hasMetadata = true
+	}
 }
 
 // SetXMP sets XMP metadata for the output file.
 func (e *AnimEncoder) SetXMP(data []byte) {
 	e.muxer.SetXMP(data)
+	if data != nil {
+		e.hasMetadata = true
+	}
 }
 
 // Close finalizes the animation and writes the WebP file to the writer.
@@ -1231,7 +1241,8 @@ func (e *AnimEncoder) Close() error {
 	// Single-frame optimization: if there is exactly 1 frame and we have
 	// the canvas image and the simple encoder, try encoding as a simple
 	// WebP and pick the smaller output.
-	if e.frameCount == 1 && e.prevCanvas != nil && SimpleEncodeFunc != nil {
+	// (Not when metadata was supplied: the simple file could not carry it.)
+	if e.frameCount == 1 && !e.hasMetadata && e.prevCanvas != nil && SimpleEncodeFunc != nil {
 		simpleData, err := SimpleEncodeFunc(e.prevCanvas, e.opts.Lossless, float32(e.opts.Quality))
 		if err == nil && len(simpleData) > 0 && len(simpleData) < len(animData) {
 			_, writeErr := e.w.Write(simpleData)
